@@ -1805,7 +1805,11 @@ Qed.
 
 (* ------------------------------------------------------------ every reachable state *)
 Definition is_realloc (o : op) : bool :=
-  match o with OTryErr _ _ _ _ => true | _ => false end.
+  match o with
+  | OTryErr _ _ _ _ | OAlignPush _ _ | OAlignPop _ | OPrepare _ _ _ _ _ | OWriteRaw _ _ _
+  | OCommit _ _ _ _ _ _ _ _ => true
+  | _ => false
+  end.
 
 (* PARTIAL: every operation except OTryErr (alloc_try_with(_mut) whose closure returns Err: its
    preservation proof is not finished; the executable model of that operation is still tied to
@@ -1825,6 +1829,7 @@ Proof.
   - apply step_inv_reset; assumption.
   - apply step_inv_reset_to_start; assumption.
   - apply step_inv_reserve; assumption.
+  - apply inv_tick in Hinv. cbn [step]. destruct (is_top (tick s) h); exact Hinv.
   - apply step_inv_claim; assumption.
   - apply step_inv_unclaim; assumption.
   - apply step_inv_drop; assumption.
